@@ -149,15 +149,27 @@ fn inp_grid() -> BoxedStrategy<Inp> {
     }).boxed()
 }
 
+/// wide swings at first, then a spread six to eight orders of magnitude smaller (running second moments
+/// go slightly negative there and repair paths run)
+fn inp_collapse(quiet: bool) -> BoxedStrategy<Inp> {
+    (0.0f64..1.0, any::<bool>(), 5.0f64..9.0).prop_map(move |(u, scalar, e)| {
+        let c = if quiet { 1.0 + 10f64.powf(-e) * u } else { 1000.0 + 500.0 * (u - 0.5) };
+        Inp { bar: crate::adapter::RawBar { o: c, h: c * (1.0 + 1e-9), l: c * (1.0 - 1e-9), c, v: 10.0 }, scalar }
+    }).boxed()
+}
+
 fn strategy(cap: usize, maxops: usize) -> BoxedStrategy<Case> {
-    (any_kind(), any::<bool>())
-        .prop_flat_map(move |(k, grid)| (cfg_for(k, cap, multiplier_any()), Just(grid)))
-        .prop_flat_map(move |(cfg, grid)| {
+    (any_kind(), 0usize..5)
+        .prop_flat_map(move |(k, fam)| (cfg_for(k, cap, multiplier_any()), Just(fam)))
+        .prop_flat_map(move |(cfg, fam)| {
             let w = flush_len(&cfg);
-            let inp = move || if grid { inp_grid() } else { inp_special(6) };
+            let grid = fam == 0 || fam == 1;
+            // family 4: loud before the clone point, quiet after it
+            let inp = move || if grid { inp_grid() } else if fam == 4 { inp_collapse(false) } else { inp_special(6) };
+            let inp_post = move || if grid { inp_grid() } else if fam == 4 { inp_collapse(true) } else { inp_special(6) };
             let pre = vec((prop_oneof![4 => Just(0u8), 1 => Just(2u8)], inp()), w..=(2 * w + 4));
             let post_len = (2 * w + 4).min(maxops)..=(6 * w + 20).min(maxops.max(2 * w + 4));
-            let post = vec((prop_oneof![4 => Just(0u8), 4 => Just(1u8), 1 => Just(2u8)], inp()), post_len);
+            let post = vec((prop_oneof![4 => Just(0u8), 4 => Just(1u8), 1 => Just(2u8)], inp_post()), post_len);
             let other = any_kind().prop_flat_map(|k| cfg_for(k, 24, multiplier_any()));
             (Just(cfg), pre, post, other, any::<bool>())
         })
@@ -167,6 +179,37 @@ fn strategy(cap: usize, maxops: usize) -> BoxedStrategy<Case> {
             Case { cfg, other: Some(other), replay_in_new_thread: th, ops, clone_at }
         })
         .boxed()
+}
+
+// --- twins in lock-step over a very long history ----
+#[derive(Clone, Debug, Serialize, Deserialize)]
+pub struct TwinCase {
+    pub cfg: Cfg,
+    pub seed: u64,
+    pub len: usize,
+}
+pub fn check_twins(c: &TwinCase, ctx: &mut Ctx) -> Result<(), Failure> {
+    let mut a = fresh(&c.cfg)?;
+    let mut b = fresh(&c.cfg)?;
+    let mut gen = crate::props::c13::Gen::new(c.seed, 0, 23.17, 5);
+    let scalar = c.cfg.kind.scalar();
+    for i in 0..c.len {
+        let bar = gen.bar();
+        let (oa, ob) = if scalar && i % 2 == 0 { (a.next_scalar(bar.c), b.next_scalar(bar.c)) } else { (a.next_bar(&bar), b.next_bar(&bar)) };
+        if !oa.bits_eq(&ob) {
+            ctx.fail(
+                format!("C05:{}:nondeterministic", c.cfg.kind.name()),
+                format!("{}: two instances built with the same parameters and fed the same history differ at step {}: {:?} vs {:?}", c.cfg.tag(), i, oa.vals(), ob.vals()),
+            )?;
+            return Ok(());
+        }
+    }
+    let mut fp = Fp::new("C05W");
+    c.cfg.fp(&mut fp);
+    fp.u(c.seed);
+    ctx.nontrivial(fp);
+    ctx.label("twins_long");
+    Ok(())
 }
 
 // --- thread stage ---------------------------------------------------------------------------------------
@@ -278,6 +321,20 @@ pub fn run(g: &mut Global) {
     let maxops = g.tier.pick(2500usize, 8000usize);
     g.random("random", g.tier.pick(40000, 300000), &move || strategy(cap, maxops), &check);
     g.random("threads", g.tier.pick(208, 5008), &thread_strategy, &check_threads);
+    // twins: two instances with the same parameters fed the same history in lock-step for more than 2^24
+    // steps, compared bit for bit at every step (a process-wide counter or cache shared between instances
+    // would hit exactly one of them at some count)
+    let seed = g.seed;
+    g.exhaustive(
+        "twins_long",
+        22,
+        &move |i| {
+            let kind = ALL_KINDS[i as usize];
+            let heavy = matches!(kind, Kind::Mad | Kind::Cci | Kind::Er);
+            TwinCase { cfg: cfg_small(kind, if heavy { 3 } else { [3usize, 20, 5][(i % 3) as usize] }), seed: seed ^ (i + 1).wrapping_mul(0x9E3779B97F4A7C15), len: (1usize << 24) + 3000 }
+        },
+        &check_twins,
+    );
     if g.tier == Tier::Thorough {
         g.fuzz_stage("ops_equiv", Some(1), 2_000_000, "random", &|b| crate::fuzzdec::decode_c05(b), &check);
     }
